@@ -247,6 +247,9 @@ func (g *G) GenCall(p *Profile, rules []*RuleDef, idx int) *Call {
 		if g.Pct(6) {
 			layers, maxW = g.Range(5, 9), 8 // "any number of layers and widths"
 		}
+		if n > 8 && g.Pct(50) {
+			layers, maxW = g.Range(1, 3), n+3 // large rule sets: layers as wide as the set
+		}
 		for i := 0; i < layers; i++ {
 			w := g.Range(0, maxW)
 			var layer []string
@@ -259,6 +262,9 @@ func (g *G) GenCall(p *Profile, rules []*RuleDef, idx int) *Call {
 			}
 			c.DAG = append(c.DAG, layer)
 		}
+	}
+	if p.Secs[SecOptName] > 0 {
+		c.OptName = g.Pct(50)
 	}
 	c.UseTag = HasTag(c.Method)
 	faulty := g.Pct(p.FaultPct)
